@@ -370,8 +370,9 @@ func (c01) RunCase(cfg *core.Config, i int) core.CaseResult {
 	res.NonTrivial = len(x.Got.S) > 0
 	res.Cover = append(res.Cover, "class:"+core.Classify(x.Got), "rep:"+x.GoType, "path:"+x.Path.Kind)
 	// binary operators against every right operand
-	for _, y := range pool {
-		hz0 := core.HazardList(x.Got, y.Got)
+	for yi, y := range pool {
+		doChain := cfg.Thorough() || (i+yi)%4 == 0
+		hz0 := core.HazardList(x.Got, y.Got, x.Want, y.Want) // Want: a value built from a hazardous description may be internally inconsistent
 		for _, op := range c01BinOps {
 			var a, b Operand
 			switch op {
@@ -381,10 +382,7 @@ func (c01) RunCase(cfg *core.Config, i int) core.CaseResult {
 				a, b = x, y
 			}
 			want, _ := modelBin(op, a.Got, b.Got)
-			hz := append(append([]string{}, hz0...), repTags(a, b)...)
-			if op == "|" || op == "~~" || op == "with" {
-				hz = mergeHz(hz, core.HazardList(want))
-			}
+			hz := mergeHz(append(append([]string{}, hz0...), repTags(a, b)...), core.HazardList(want))
 			res.Evals++
 			desc := fmt.Sprintf("%s %s %s", a.Path.Src, op, b.Path.Src)
 			o := core.EvalT("x "+op+" y", "x", a.Val, "y", b.Val)
@@ -393,24 +391,25 @@ func (c01) RunCase(cfg *core.Config, i int) core.CaseResult {
 				res.SubKeys = append(res.SubKeys, op+"|"+a.Got.Enc+"|"+a.GoType+"|"+b.Got.Enc+"|"+b.GoType)
 			}
 			// chains: reuse the live result as an operand of a second operator (values produced by earlier operators)
-			if ok && rv != nil && (op == "|" || op == "&~" || op == "with" || op == "~~") {
+			if doChain && ok && rv != nil && (op == "|" || op == "&~" || op == "with" || op == "~~") {
 				for _, op2 := range []string{"&", "|", "&~", "(<=)"} {
 					w2, _ := modelBin(op2, want, a.Got)
 					res.Evals++
 					o2 := core.EvalT("r "+op2+" x", "r", rv, "x", a.Val)
-					hz2 := mergeHz(hz, []string{"chain"})
+					hz2 := mergeHz(mergeHz(hz, []string{"chain"}), core.HazardList(w2))
 					j.judgeSetResult("C01", op+";"+op2, o2, w2, hz2, fmt.Sprintf("(%s) %s %s", desc, op2, a.Path.Src))
 				}
 			}
 		}
 	}
 	// unary: count, power set, where / => through callback probes
-	hzx := append(core.HazardList(x.Got), repTags(x)...)
+	hzx := append(core.HazardList(x.Got, x.Want), repTags(x)...)
 	res.Evals++
 	j.judgeSetResult("C01", "count", core.EvalT("x count", "x", x.Val), num(float64(len(x.Got.S))), hzx, x.Path.Src+" count")
 	if len(x.Got.S) <= 4 {
 		res.Evals++
-		j.judgeSetResult("C01", "^", core.EvalT("^x", "x", x.Val), mPower(x.Got), hzx, "^"+x.Path.Src)
+		pw := mPower(x.Got)
+		j.judgeSetResult("C01", "^", core.EvalT("^x", "x", x.Val), pw, mergeHz(hzx, core.HazardList(pw)), "^"+x.Path.Src)
 	}
 	for variant := 0; variant < 3; variant++ {
 		keep := func(m MV) bool { return (core.Hash64(m.Enc)>>uint(variant))&1 == 0 }
@@ -426,8 +425,8 @@ func (c01) RunCase(cfg *core.Config, i int) core.CaseResult {
 		}
 		res.Evals++
 		desc := fmt.Sprintf("%s where <probe#%d>", x.Path.Src, variant)
-		o := core.EvalT("x where p", "x", x.Val, "p", p.pred(keep))
-		if _, ok := j.judgeSetResult("C01", "where", o, mset(want...), hzx, desc); ok {
+		o := core.EvalT("x where p(.)", "x", x.Val, "p", p.pred(keep))
+		if _, ok := j.judgeSetResult("C01", "where", o, mset(want...), mergeHz(hzx, core.HazardList(mset(want...))), desc); ok {
 			if msg := fedExactlyOnce(p.fed, x.Got); msg != "" {
 				j.report("C01.fed", "where", "fed-mismatch", "", memberDelta(mset(), x.Got, "plain"), hzx, desc+": predicate "+msg, map[string]string{"expr": desc})
 			}
@@ -446,8 +445,8 @@ func (c01) RunCase(cfg *core.Config, i int) core.CaseResult {
 		}
 		res.Evals++
 		desc := fmt.Sprintf("%s => <probe#%d>", x.Path.Src, variant)
-		o := core.EvalT("x => f", "x", x.Val, "f", p.mapper(img))
-		if _, ok := j.judgeSetResult("C01", "=>", o, mset(want...), hzx, desc); ok {
+		o := core.EvalT("x => f(.)", "x", x.Val, "f", p.mapper(img))
+		if _, ok := j.judgeSetResult("C01", "=>", o, mset(want...), mergeHz(hzx, core.HazardList(mset(want...))), desc); ok {
 			if msg := fedExactlyOnce(p.fed, x.Got); msg != "" {
 				j.report("C01.fed", "=>", "fed-mismatch", "", "plain", hzx, desc+": mapper "+msg, map[string]string{"expr": desc})
 			}
